@@ -1,0 +1,38 @@
+//! Add-only accessors for the external model-based verification harness (`/verif`).
+//!
+//! Everything in here is compiled only with the `_verif` cargo feature and merely exposes
+//! existing crate-private items read-only; it adds no behaviour.
+
+/// Crate-private protocol constants, so that the timing models are instantiated from the code.
+pub struct Consts {
+	pub cltv_claim_buffer: u32,
+	pub latency_grace_period_blocks: u32,
+	pub max_blocks_for_conf: u32,
+	pub cltv_far_far_away: u32,
+	pub counterparty_claimable_within_blocks_pinnable: u32,
+	pub anti_reorg_delay: u32,
+	pub htlc_fail_back_buffer: u32,
+	pub min_cltv_expiry_delta: u16,
+	pub min_final_cltv_expiry_delta: u16,
+	pub idempotency_timeout_ticks: u8,
+	pub mpp_timeout_ticks: u8,
+}
+
+pub fn consts() -> Consts {
+	use crate::chain::channelmonitor as cm;
+	use crate::ln::channelmanager as mgr;
+	Consts {
+		cltv_claim_buffer: cm::CLTV_CLAIM_BUFFER,
+		latency_grace_period_blocks: cm::LATENCY_GRACE_PERIOD_BLOCKS,
+		max_blocks_for_conf: cm::MAX_BLOCKS_FOR_CONF,
+		cltv_far_far_away: mgr::CLTV_FAR_FAR_AWAY,
+		counterparty_claimable_within_blocks_pinnable:
+			cm::COUNTERPARTY_CLAIMABLE_WITHIN_BLOCKS_PINNABLE,
+		anti_reorg_delay: cm::ANTI_REORG_DELAY,
+		htlc_fail_back_buffer: cm::HTLC_FAIL_BACK_BUFFER,
+		min_cltv_expiry_delta: mgr::MIN_CLTV_EXPIRY_DELTA,
+		min_final_cltv_expiry_delta: mgr::MIN_FINAL_CLTV_EXPIRY_DELTA,
+		idempotency_timeout_ticks: crate::ln::outbound_payment::IDEMPOTENCY_TIMEOUT_TICKS,
+		mpp_timeout_ticks: mgr::MPP_TIMEOUT_TICKS,
+	}
+}
